@@ -27,14 +27,14 @@ func init() {
 	core.Register(&core.Spec{
 		ID:    "C07",
 		Level: "exploration",
-		Rule: "part 1: every derivation of T ::= (literal | $$ | $NAME | ${NAME} | ${NAME op T})* up to a size bound (items per level, nesting depth; 3 names, literals incl. operator characters) x 6 variable environments, each compared with a reference evaluator written from the statement; " +
+		Rule: "part 1: every derivation of T ::= (literal | $$ | $NAME | ${NAME} | ${NAME op T})* with at most 4 grammar items in total and nesting <=2 (complete; thorough adds nesting 3 and a seed-selected eighth of the 5-item derivations; 3 names, literals incl. operator characters) x 6 variable environments, each compared with a reference evaluator written from the statement; " +
 			"part 2: every string over {$ { } : - + ? A _ 1 space} up to a length bound x 2 environments (no panic; in-grammar strings decided by the reference; malformed ${...} must be an error); " +
 			"part 3: a sample pushed through loader.LoadWithContext as image/label values. A case is non-trivial when its template contains at least one substitution and the statement decides its outcome; distinct = distinct template texts.",
 		Assumptions: []string{
 			"the reference evaluator (internal/ref/interp.go) is a faithful reading of the statement",
 			"where the statement is silent (errors inside an unused default/replacement/message, `$` followed by a non-name character, bare `{` inside nested text, the partial value returned along with an error) no outcome is asserted, only absence of a panic",
 		},
-		Exhaustive: func(string) bool { return true },
+		Exhaustive: func(tier string) bool { return tier == "quick" },
 		CPUBudget:  func(string) float64 { return 300 },
 		Run:        run,
 		Replay:     replay,
@@ -279,6 +279,18 @@ func enumerate(maxSize, depth int, f func([]ref.Item)) {
 	}
 }
 
+// size is the total number of grammar items of a template, nested ones included.
+func size(t []ref.Item) int {
+	n := 0
+	for _, it := range t {
+		n++
+		if it.Kind == ref.Op {
+			n += size(it.Sub)
+		}
+	}
+	return n
+}
+
 func hasSubst(t []ref.Item) bool {
 	for _, it := range t {
 		if it.Kind != ref.Lit {
@@ -313,6 +325,9 @@ func run(s *core.Shard) {
 			n++
 			if !s.Mine(n) {
 				return
+			}
+			if size(t) == 5 && (n/s.Count)%8 != int(s.Seed)%8 {
+				return // thorough: size 5 is a seed-selected eighth (size <= 4 stays complete)
 			}
 			mine++
 			if mine%2000 == 1 {
